@@ -59,7 +59,8 @@ func applyNetPolicies(ctx context.Context, kc kubernetes.Interface, b *netPolBui
 			metricsutils.IncCounterVecWithLabelValues(kubeCallsCounter, "networking-policies-create", err)
 		}
 		if err != nil {
-			break
+			// err is scoped to the loop body; a break would drop it and report success
+			return err
 		}
 	}
 
